@@ -71,6 +71,7 @@ def run(ctx, chk):
     T = prog.enum("cbor_type")
     Tn = {v: k for k, v in T.items()}
     SRC = ("arg", 0)
+    CS = typestate.CallSites(prog, eff, cache, H, PA)
     # ---- aliasing / freshness
     nins = 0
     for name in SUBJECTS:
@@ -140,12 +141,10 @@ def run(ctx, chk):
                                  new_indef="cbor_new_indefinite_map", ins="cbor_map_add"),
     }
     for k, pa in enumerate(cache.get("cbor_copy")):
-        ty = None
-        for key, vals in pa.st.inset.items():
-            if strip(key)[0] == "call" and strip(key)[1] == "cbor_typeof":
-                ty = sorted(vals)
-        if ty is None or len(ty) != 1:
-            continue
+        tys_, _iw, _fw, fl_ = CS.summary(f, pa, SRC)
+        ty = sorted(tys_)
+        if len(ty) != 1:
+            continue   # infeasible (empty) or default arm
         t = ty[0]
         seen.add(t)
         if pa.ret == ("c", 0):
@@ -165,10 +164,7 @@ def run(ctx, chk):
             chk.ob("C11.shape", inst + ": tag(value of source, copy of the tagged item)", ok, where, fn=f.name, key="shape:tag")
         else:
             sp = SPEC[t]
-            definite = None
-            for e in calls:
-                if e.callee == sp["pred"] and e.args[0] == SRC and pa.st.truth.get(e.res) is not None:
-                    definite = pa.st.truth[e.res]
+            definite = True if fl_ == {0} else (False if fl_ == {1} else None)
             if definite is None:
                 chk.ob("C11.shape", inst + ": flavour tested", False, where, fn=f.name, key="shape:flav:%d:%d" % (t, k))
                 continue
@@ -215,18 +211,15 @@ def run(ctx, chk):
     nleaf = 0
     for k, rs in enumerate(tables.result_states(prog, eff, "cbor_copy", extra_inline=helpers)):
         pa, d = rs["path"], rs["desc"]
-        ty = w = None
-        wfn = None
-        for key, vals in pa.st.inset.items():
-            kk = strip(key)
-            if kk[0] == "call" and kk[1] == "cbor_typeof":
-                ty = sorted(vals)
-            elif kk[0] == "call" and kk[1] in ("cbor_int_get_width", "cbor_float_get_width"):
-                w, wfn = sorted(vals), kk[1]
+        tys_, iw_, fw_, _fl = CS.summary(f, pa, SRC)
+        ty = sorted(tys_)
         leaf_types = {T["CBOR_TYPE_UINT"], T["CBOR_TYPE_NEGINT"], T["CBOR_TYPE_FLOAT_CTRL"]}
-        if ty is None or len(ty) != 1 or ty[0] not in leaf_types or d is None:
+        if len(ty) != 1 or ty[0] not in leaf_types or d is None:
             continue
         t0 = ty[0]
+        w = sorted(fw_ if t0 == T["CBOR_TYPE_FLOAT_CTRL"] else iw_)
+        if len(w) != 1:
+            w = None
         nleaf += 1
         det = []
 
